@@ -18,8 +18,31 @@ ASAN = 'small_sse_cache_seq_asan'
 ALG_REASONS = {'result', 'frame', 'stray', 'crash', 'unexpected_die', 'die_touched', 'unknown_op'}
 
 
+BOUND_OPS = {'ple', 'pluq', '_ple', '_pluq', '_ple_naive', '_pluq_naive', '_ple_russian', '_pluq_russian', 'echelonize_m4ri'}
+
+
 def mcjob(module, cfg=None, workers=8, timeout=900, xmx='8g', witness=False):
     return dict(module=module, cfg=cfg or module, workers=workers, timeout=timeout, xmx=xmx, witness=witness)
+
+
+def with_binding(jobsf, family, extra, qcases, tcases):
+    """adds the model-binding job: the family in the 'tiny' cache configuration (recursions reachable on matrices small enough
+    for TLC to evaluate the implementation-shaped model on them); only drift_* is read off that job"""
+    def f(tier, seed):
+        n = qcases if tier == 'quick' else tcases
+        return jobsf(tier, seed) + [TraceJob('tiny_sse_cache_seq', family, shards=min(16, n), args=['--cases', n, '--extra', extra],
+                                             label='%s-modelbinding@tiny' % family, timeout=3000, binding_only=True)]
+    return f
+
+
+def words2_mc(tier, kinds, wit=False):
+    """word-level models on the larger region (MC_MzdWords2): column swaps in a row range, _mzd_compress_l (+ the F17 witness)"""
+    js = [mcjob('MC_MzdWords2', 'MC_MzdWords2_' + k, workers=16, timeout=1800) for k in kinds]
+    if wit:
+        js.append(mcjob('MC_MzdWords2', 'MC_MzdWords2_wit_f17', workers=4, witness=True))
+    if tier != 'quick':
+        js.append(mcjob('MC_MzdWords2', 'MC_MzdWords2_w3', workers=16, timeout=3000))
+    return js
 
 
 def plerec_mc(tier):
@@ -28,6 +51,13 @@ def plerec_mc(tier):
           mcjob('MC_PLERec', 'MC_PLERec_wit_NoRecursion', workers=2, witness=True), mcjob('MC_PLERec', 'MC_PLERec_wit_NoDeep', workers=4, witness=True)]
     if tier != 'quick':
         js += [mcjob('MC_PLERec', 'MC_PLERec_full', workers=12, timeout=3000), mcjob('MC_PLERec', 'MC_PLERec_deep', workers=12, timeout=3000)]
+    # the base case of every PLE call (alg/PLERussian.tla): word size 2 exhaustively, word sizes 4 and 6 with 2 and 3 tables on patterns
+    js += [mcjob('MC_PLERussian', 'MC_PLERussian', workers=8), mcjob('MC_PLERussian', 'MC_PLERussian_k2', workers=4),
+           mcjob('MC_PLERussian', 'MC_PLERussian_k2n3', workers=4),
+           mcjob('MC_PLERussian', 'MC_PLERussian_wit_window', workers=2, witness=True), mcjob('MC_PLERussian', 'MC_PLERussian_wit_NoA2', workers=2, witness=True),
+           mcjob('MC_PLERussian', 'MC_PLERussian_wit_NoEmptyBlock', workers=2, witness=True)]
+    if tier != 'quick':
+        js.append(mcjob('MC_PLERussian', 'MC_PLERussian_full', workers=12, timeout=3000))
     return js
 
 
@@ -405,16 +435,16 @@ PROPS = {
                 prepare=c14_prepare, jobs=c14_jobs, mc=c14_mc,
                 assumptions=['the link-time malloc/free wrappers see every heap call of the m4ri objects', 'header-cache geometry (64 headers per block) is a constant of the code',
                              'random histories are sampled; generated histories are exhaustive up to the stated depth for the reduced-capacity build']),
-    'C09': dict(level='model_checking', reasons=ALG_REASONS | {'padding'}, jobs=views_jobs, mc=lambda tier: [mcjob('MC_MzdWords', c, workers=16, timeout=2400) for c in ('MC_MzdWords_c08_w3', 'MC_MzdWords_c13_w3')], assumptions=GEN_ASSUME + [
+    'C09': dict(level='model_checking', reasons=ALG_REASONS | {'padding'}, jobs=views_jobs, mc=lambda tier: [mcjob('MC_MzdWords', c, workers=16, timeout=2400) for c in ('MC_MzdWords_c08_w3', 'MC_MzdWords_c13_w3')] + words2_mc(tier, ('cl',), wit=True), assumptions=GEN_ASSUME + [
         'window placements are sampled from the classes row offset {0,1,5} x word offset {0,1,2,3} x parent wider by {0,1,17,64,65,130} columns x rows below or not']),
     'C02': alg(simple_jobs('elim', 640), mc=lambda tier: gf2_mc(tier) + [mcjob('MC_Echelon', 'MC_Echelon_km%d' % km, workers=12) for km in (1, 2, 6)]),
-    'C03': alg(simple_jobs('ple', 480, qshards=12), mc=lambda tier: gf2_mc(tier) + [mcjob('MC_PLE', 'MC_PLE', workers=12), mcjob('MC_PLE', 'MC_PLE_tall', workers=12)] + plerec_mc(tier)),
+    'C03': alg(with_binding(simple_jobs('ple', 480, qshards=12), 'ple', 'tinyrec', 16, 64), mc=lambda tier: gf2_mc(tier) + [mcjob('MC_PLE', 'MC_PLE', workers=12), mcjob('MC_PLE', 'MC_PLE_tall', workers=12)] + plerec_mc(tier) + words2_mc(tier, ('cl',), wit=True)),
     'C04': alg(simple_jobs('trsm', 480), mc=lambda tier: gf2_mc(tier) + [mcjob('MC_TRSM', workers=12, timeout=1800)]),
     'C05': alg(simple_jobs('inv', 320), mc=lambda tier: gf2_mc(tier) + [mcjob('MC_Solve', workers=12)]),
     'C06': alg(simple_jobs('solve', 480), mc=lambda tier: gf2_mc(tier) + [mcjob('MC_Solve', workers=12), mcjob('MC_Solve', 'MC_Solve_wit_f03', workers=4, witness=True)]),
     'C07': alg(simple_jobs('kernel', 320), mc=lambda tier: gf2_mc(tier) + [mcjob('MC_Solve', workers=12)]),
     'C08': alg(simple_jobs('move', 1600), mc=words_mc('MC_MzdWords_c08_w3')),
-    'C13': alg(simple_jobs('rowops', 1200), mc=words_mc('MC_MzdWords_c13_w3')),
+    'C13': alg(simple_jobs('rowops', 1200), mc=lambda tier: words_mc('MC_MzdWords_c13_w3')(tier) + words2_mc(tier, ('cswap',))),
     'C17': alg(simple_jobs('obs', 1600), mc=words_mc('MC_MzdWords_c17_w2')),
     'C01': dict(level='model_checking', reasons=ALG_REASONS, jobs=c01_jobs,
                 mc=lambda tier: gf2_mc(tier) + [mcjob('MC_Strassen', workers=12), mcjob('MC_Strassen', 'MC_Strassen_wit_f01', workers=4, witness=True),
@@ -559,6 +589,7 @@ def run_property(prop, tier, seed):
     samples = []
     other = {}
     drift = {}
+    nbound = {}
     classes = {}
     reached = {}
     for (job, shard), tr, r in zip(pairs, traces, results):
@@ -596,11 +627,23 @@ def run_property(prop, tier, seed):
                         if len(samples) < 6 and (len(sigs) % 97 == 1):
                             samples.append(s)
                     perop[ev['op']] = perop.get(ev['op'], 0) + 1
+                    if ev['op'] in BOUND_OPS and ev.get('o') and not ev.get('die'):
+                        o0 = ev['o'][0]
+                        if o0['m'] * o0['n'] <= 10000 or (job.cfg.startswith('tiny') and o0['m'] * o0['n'] <= 350 * 270):
+                            if ev['op'] != 'echelonize_m4ri' or ev['p'].get('k', 0) >= 1:
+                                nbound[ev['op']] = nbound.get(ev['op'], 0) + 1
                     for fn in ev.get('fn', []):
                         reached[fn] = reached.get(fn, 0) + 1
         bad = [(ln, op, reasons) for (ln, op, reasons) in r['fails']] + [(c[0], 'crash', ['crash']) for c in r['crashes']]
         if job.cfg in P.get('skip_reject_cfgs', []):
             bad = []
+        if getattr(job, 'binding_only', False):
+            for ln, op, reasons in bad:
+                for x in reasons:
+                    if not x.startswith('drift_'):
+                        other['%s(outside the quantified configurations, %s)' % (x, job.cfg)] = other.get('%s(outside the quantified configurations, %s)' % (x, job.cfg), 0) + 1
+            bad = [(ln, op, [x for x in reasons if x.startswith('drift_')]) for (ln, op, reasons) in bad]
+            bad = [b for b in bad if b[2]]
         keep = False
         for ln, op, reasons in bad:
             if lines is None:
@@ -615,7 +658,7 @@ def run_property(prop, tier, seed):
             rel = sorted(set(reasons) & P['reasons'])
             if not rel:
                 for x in reasons:
-                    if x in P.get('drift', ()):
+                    if x in P.get('drift', ()) or x.startswith('drift_'):
                         drift[x + ' ' + job.label] = drift.get(x + ' ' + job.label, 0) + 1
                     else:
                         other[x] = other.get(x, 0) + 1
@@ -662,6 +705,9 @@ def run_property(prop, tier, seed):
         'build_configurations': sorted(set(j.cfg for j in jobs)),
         'rejections_left_to_other_properties': other,
         'model_drift': drift,
+        'model_conformance': {'events_compared_bit_for_bit_with_the_implementation_shaped_model': nbound,
+                              'models': 'alg/PLERussian (k explicit or automatic), alg/PLERec (naive PLE/PLUQ; block recursion with the PLERussian base case and the '
+                                        'TRSM recursion), alg/Echelon (explicit k); a mismatch is reported as model drift, never as a violation'},
         'internal_routines_reached': reached,
     }
     res['coverage'].update(extra_cov)
